@@ -9,19 +9,20 @@
 (* oracle; the driver asserts nothing).                                    *)
 (*                                                                         *)
 (* Reusable ("freed memory is reusable"), history based: `okh` remembers   *)
-(* for every successful allocation the set of live addresses it was served *)
-(* from.  An OutOfMemory for a request that is not larger (size and        *)
-(* alignment) than one that was served before from a superset of the       *)
-(* present live set means that memory which was given back cannot be used  *)
-(* again (a lost bucket, a cursor that was moved by a failed request or    *)
-(* not reset).  This holds for every allocator kind of Alloc.tla.          *)
+(* for every successful allocation the set of live regions (address and    *)
+(* extent) it was served from.  An OutOfMemory for a request that is not   *)
+(* larger (size and alignment) than one that was served before from a      *)
+(* superset of the present live regions means that memory which was given  *)
+(* back cannot be used again (a lost bucket, a cursor that was moved by a   *)
+(* failed request or not reset).  Sound for every kind of Alloc.tla: pool  *)
+(* - fewer live buckets; bump - the cursor is the largest end of a live    *)
+(* region, so it is not larger than it was; one-chunk - only the empty     *)
+(* state serves.                                                           *)
 (***************************************************************************)
 EXTENDS Alloc, TraceIO
 
 VARIABLES l, okh
 tvars == <<kind, lay, live, viol, why, l, okh>>
-
-Addrs(s) == {x.addr : x \in s}
 
 TraceInit ==
     /\ l = 1
@@ -29,11 +30,11 @@ TraceInit ==
     /\ PInit("pool", [base |-> 0, size |-> 0, bsize |-> 1, balign |-> 1])
     /\ TraceRegInit
 
-Served(sz, al) == \E h \in okh : h.size >= sz /\ h.align >= al /\ Addrs(live) \subseteq h.addrs
+Served(sz, al) == \E h \in okh : h.size >= sz /\ h.align >= al /\ live \subseteq h.live
 
 AllocOk(e) ==
     /\ ObsAllocOk(e.size, e.align, e.addr, e.ext)
-    /\ okh' = okh \cup {[size |-> e.size, align |-> e.align, addrs |-> Addrs(live)]}
+    /\ okh' = okh \cup {[size |-> e.size, align |-> e.align, live |-> live]}
 
 AllocErr(e) ==
     IF e.r = "OutOfMemory" /\ Served(e.size, e.align) /\ viol = "none"
